@@ -47,7 +47,13 @@ RULE = ('seeded lenses of 1-12 planes/spheres/conics (catalogue and ideal media,
         'conjugates with the stop on and behind surface 1 under EPD / imageFNO / objectNA, an infinite-conjugate lens with planes) is '
         'added to every seed, wavelength change of an all-ideal lens, scale factors 10^u, u in [-2,2] '
         '(half of them powers of two) by an independently built scaled lens and by Optic.scale_system (planes/conics, angular '
-        'fields, with and without decentres); non-trivial = relation evaluated on a ray that reaches the image with finite data')
+        'fields, with and without decentres); argument forms of trace_generic: on 15 fixed all-ideal lenses (7 with non-integer '
+        'pupil position / EPD / object distance / field, stop inside, on surface 1 and behind the lens, infinite and finite '
+        'objects, EPD / imageFNO / objectNA) and 3 random ones (one with vignetting factors) the chief and rim rays of the '
+        'fields H = (0,+-1), (0,0), (1,1) are written as float64 arrays, int64 / int32 arrays, Python int and float scalars and '
+        'mixtures on ONE live Optic (float form, other forms, float form again): launch record against the prescription '
+        '(independently computed entrance-pupil position), scale s = 0.01 / 100 / random, mirrors, equality of all forms; '
+        'non-trivial = relation evaluated on a ray that reaches the image with finite data')
 PARTIAL = [
     'tilt about the centre of curvature: proved that both descriptions denote the same sphere (same quadric value for every '
     'global point) and that the frame changes are the translated kernels; that the kernel then selects the same root '
